@@ -8,9 +8,9 @@ import BfeVerif.C06.Model
      result: per label  `<code>=<avail>:<failNum>:<succNum>:<restarted>:<closed>`
         code = a | r | u0/u1 (return value) | R | P (close of closed channel) | pc of checker i after the step | none
   op `g <tok> <tok> …`   real `check` goroutine, compared at quiescent points (checker parked before its connect, or gone):
-        F<th>  OnFail with FailNum=th | S  OnSuccess | H<ok>:<th>  let the checker run one iteration | R  Release
+        F<th>  OnFail with FailNum=th | N  OnFail while the fetcher returns no conf | P<code>:<want>:<th>  one http check iteration (server sends code, conf expects want) | S  OnSuccess | H<ok>:<th>  let the checker run one iteration | R  Release
      result: per token `<avail>:<failNum>:<succNum>:<restarted>:<closed>:<live checker goroutines>:<connects accepted so far>`, then `end:<n>`
-  op `x <threads>:<per>:<th>`   storm: threads×per concurrent OnFail, then one successful check under SuccNum=1
+  op `x <threads>:<per>:<th>[:<rounds>]`   storm: threads×per concurrent OnFail, then one successful check under SuccNum=1
      result: two g-style observations
   every g / x result ends with `end:<n>`: check goroutines still alive after the harness released the backend and let a
   parked checker finish its iteration (the property demands 0); `HANG…` = a bounded wait of the harness expired
@@ -168,13 +168,31 @@ def obsM (labs : List Lab) (toks : List String) : Option (List Obs) :=
 
 /-! ### g mode -/
 
-inductive GTok | fail (th : Int) | succ | health (ok : Bool) (th : Int) | release
+inductive GTok
+  | fail (th : Int) | succ | health (ok : Bool) (th : Int) | release
+  /-- OnFail while the conf fetcher returns nil for the cluster: the failure is counted, the status is not updated -/
+  | failNil
+  /-- http health check: the server answers `code`, the conf expects `want` (cluster_conf.MatchStatusCode) -/
+  | http (code want : Nat) (th : Int)
+
+/-- cluster_conf.MatchStatusCode: exact code 100..599, 0 = any, 1..31 = bit mask of 1xx..5xx -/
+def httpOk (code want : Nat) : Bool :=
+  (decide (100 ≤ want ∧ want ≤ 599) && code == want) || want == 0 ||
+  (decide (1 ≤ want ∧ want ≤ 31) && (want &&& (1 <<< (code / 100 - 1))) != 0)
 
 def parseG (t : String) : Option GTok :=
   match t.toList with
   | ['S'] => some .succ
   | ['R'] => some .release
+  | ['N'] => some .failNil
   | 'F' :: rest => (String.ofList rest).toInt?.map .fail
+  | 'P' :: rest =>
+    match (String.ofList rest).splitOn ":" with
+    | [c, w, th] =>
+      match c.toNat?, w.toNat?, th.toInt? with
+      | some c, some w, some th => some (.http c w th)
+      | _, _, _ => none
+    | _ => none
   | 'H' :: rest =>
     match (String.ofList rest).splitOn ":" with
     | [ok, th] => th.toInt?.map (.health (ok == "1"))
@@ -223,6 +241,17 @@ def gStep (s : St) (evs : List Ev) : GTok → St × List Ev
     match parkedIdx s with
     | none => (s, evs)
     | some i => iterate s evs i ok th
+  | .failNil => let (s1, e1) := step s .addFail; (s1, e1 :: evs)
+  | .http code want th =>
+    match parkedIdx s with
+    | none => (s, evs)
+    | some i => iterate s evs i (httpOk code want) th
+
+/-- does the check of this token reach a server of the harness (tcp accept / http request)? -/
+def seenInc (s : St) : GTok → Nat
+  | .health ok _ => if (parkedIdx s).isSome && ok then 1 else 0
+  | .http _ _ _ => if (parkedIdx s).isSome then 1 else 0
+  | _ => 0
 
 /-- end of every g/x case: the harness releases the backend (if the script did not), lets a parked checker run the one
     iteration it is committed to, and counts the check goroutines still alive -/
@@ -236,16 +265,17 @@ def endStr (s : St) (evs : List Ev) : String :=
 def connCount (evs : List Ev) : Nat :=
   (evs.filter fun e => match e with | .connect _ true _ => true | _ => false).length
 
-def gStr (s : St) (evs : List Ev) : String :=
-  stStr s ++ ":" ++ toString (liveCount s) ++ ":" ++ toString (connCount evs)
+def gStr (s : St) (seen : Nat) : String :=
+  stStr s ++ ":" ++ toString (liveCount s) ++ ":" ++ toString seen
 
 def runG (toks : List GTok) : String × St × List Ev :=
-  let rec go (s : St) (evs : List Ev) (acc : List String) : List GTok → String × St × List Ev
+  let rec go (s : St) (evs : List Ev) (seen : Nat) (acc : List String) : List GTok → String × St × List Ev
     | [] => (" ".intercalate (endStr s evs :: acc).reverse, s, evs)
     | t :: ts =>
       let (s', evs') := gStep s evs t
-      go s' evs' (gStr s' evs' :: acc) ts
-  go init [] [] toks
+      let seen' := seen + seenInc s t
+      go s' evs' seen' (gStr s' seen' :: acc) ts
+  go init [] 0 [] toks
 
 def parseSt7 (s : String) : Option (Bool × Bool × Nat × Nat) :=
   match s.splitOn ":" with
@@ -270,6 +300,11 @@ def obsG (toks : List GTok) (impl : List String) : Option (List Obs) :=
           | .health _ th =>
             if liveB == 0 then [] else
               [.connect 0 (decide (n > connsB)) th] ++ (if !availB && a then [.setUp 0] else [])
+          | .failNil => [.addFail]
+          | .http code want th =>
+            -- the outcome of an http check is what the configured status-code rule says about the code the server sent
+            if liveB == 0 then [] else
+              [.connect 0 (httpOk code want) th] ++ (if !availB && a then [.setUp 0] else [])
         go a l n ts rs ({ evs := evs, avail := a, live := l, closed := c, exactUp := true } :: acc)
     | _, _, _ => none
   go true 0 0 toks impl []
@@ -318,36 +353,56 @@ def run (op impl : String) : Ans :=
       { model := m, verdict := verdict
         tags := ["g"] ++ (if downs > 0 then ["nt", "down"] else []) ++ (if ups > 0 then ["up"] else [])
           ++ (if downs > 1 then ["down2"] else []) ++ (if s.closed then ["rel"] else [])
-          ++ (if s.closed && connSince evs == 1 then ["rel-conn"] else []) }
+          ++ (if s.closed && connSince evs == 1 then ["rel-conn"] else [])
+          ++ (if gts.any (fun t => match t with | .http _ _ _ => true | _ => false) then ["http"] else [])
+          ++ (if gts.any (fun t => match t with | .failNil => true | _ => false) then ["nilconf"] else []) }
   | ["x", spec] =>
-    match spec.splitOn ":" with
-    | [t, p, th] =>
-      match t.toNat?, p.toNat?, th.toInt? with
-      | some t, some p, some th =>
-        -- sequential schedule; the final observation of the storm phase does not depend on the schedule
-        let rec go (s : St) (evs : List Ev) : List GTok → St × List Ev
-          | [] => (s, evs)
-          | g :: r => let (s', e') := gStep s evs g; go s' e' r
-        let (s1, e1) := go init [] (List.replicate (t * p) (GTok.fail th))
-        let (s2, e2) := gStep s1 e1 (GTok.health true 1)
-        let m := gStr s1 e1 ++ " " ++ gStr s2 e2 ++ " " ++ endStr s2 e2
+    let fs := (spec.splitOn ":").map (·.toNat?)
+    match fs with
+    | some t :: some p :: rest =>
+      let th : Option Int := match (spec.splitOn ":").getD 2 "" |>.toInt? with | some v => some v | none => none
+      let rounds := match rest with | [_, some r] => r | _ => 1
+      match th with
+      | none => { model := "bad-op", verdict := "skip" }
+      | some th =>
+        -- sequential schedule; the observation after each storm does not depend on the schedule (every AddFailNum
+        -- precedes the last UpdateStatus, nothing resets failNum meanwhile)
+        let rec storm (s : St) (evs : List Ev) : Nat → St × List Ev
+          | 0 => (s, evs)
+          | n + 1 => let (s', e') := gStep s evs (GTok.fail th); storm s' e' n
+        let rec go (r : Nat) (s : St) (evs : List Ev) (seen : Nat) (acc : List (String × Bool)) :
+            St × List Ev × List (String × Bool) :=
+          match r with
+          | 0 => (s, evs, acc.reverse)
+          | r + 1 =>
+            let (s1, e1) := storm s evs (t * p)
+            let tok := GTok.health true 1
+            let seen' := seen + seenInc s1 tok
+            let (s2, e2) := gStep s1 e1 tok
+            go r s2 e2 seen' ((gStr s2 seen', s2.avail) :: (gStr s1 seen, s1.avail) :: acc)
+        let (sE, eE, obs) := go rounds init [] 0 []
+        let m := " ".intercalate (obs.map (·.1) ++ [endStr sE eE])
+        let itoks := (impl.splitOn " ").filter (· != "")
         let verdict :=
-          if implHang impl then "FAIL:hang" else
-          match (impl.splitOn " ").filter (· != "") with
-          | [r1, r2, e] =>
-            match parseSt7 r1, parseSt7 r2 with
-            | some (a1, _, l1, _), some (a2, _, l2, _) =>
-              if l1 > 1 || l2 > 1 then "FAIL:two-checkers"
-              else if !a1 && l1 != 1 then "FAIL:no-checker"
-              else if a1 && l1 == 1 then "FAIL:stray-checker"
-              else if a2 && l2 != 0 then "FAIL:stray-checker"
-              else if (a1 == true) != decide ((t * p : Int) < th) then "FAIL:down-late"
-              else if e != "end:0" then "FAIL:checker-still-running-after-release"
-              else "ok"
-            | _, _ => "FAIL:unparsable"
-          | _ => "FAIL:unparsable"
-        { model := m, verdict := verdict, tags := ["x"] ++ (if (t * p : Int) ≥ th then ["nt", "down"] else []) }
-      | _, _, _ => { model := "bad-op", verdict := "skip" }
+          if implHang impl then "FAIL:hang"
+          else if itoks.length != obs.length + 1 then "FAIL:unparsable"
+          else
+            let rec judgeX (i : Nat) : List String → List (String × Bool) → String
+              | r :: rs, (_, wantAvail) :: os =>
+                match parseSt7 r with
+                | some (a, _, l, _) =>
+                  if l > 1 then "FAIL:two-checkers"
+                  else if !a && l != 1 then "FAIL:no-checker"
+                  else if a && l != 0 then "FAIL:stray-checker"
+                  else if a != wantAvail then (if i % 2 == 0 then (if a then "FAIL:down-late" else "FAIL:down-early") else (if a then "FAIL:up-early" else "FAIL:up-late"))
+                  else judgeX (i + 1) rs os
+                | none => "FAIL:unparsable"
+              | [e], [] => if e != "end:0" then "FAIL:checker-still-running-after-release" else "ok"
+              | _, _ => "FAIL:unparsable"
+            judgeX 0 itoks obs
+        { model := m, verdict := verdict
+          tags := ["x"] ++ (if (eE.any fun e => match e with | .upd _ true => true | _ => false) then ["nt", "down"] else [])
+            ++ (if rounds > 1 then ["x-rounds"] else []) }
     | _ => { model := "bad-op", verdict := "skip" }
   | _ => { model := "bad-op", verdict := "skip" }
 
